@@ -65,7 +65,7 @@ import slimta.relay.pipe as _pipe_mod
 import slimta.edge.smtp as _edge_mod
 from slimta.smtp.server import Server
 from slimta.edge.smtp import SmtpEdge
-from slimta.relay import TransientRelayError, PermanentRelayError
+from slimta.relay import TransientRelayError
 from slimta.relay.smtp.static import StaticSmtpRelay, StaticLmtpRelay
 from slimta.relay.pipe import PipeRelay, MaildropRelay, DovecotLdaRelay
 from slimta.relay.http import HttpRelay
@@ -85,10 +85,14 @@ LEVEL_NOTE = ('Trusted: the timer-chain argument (libev fires timers in deadline
               'lag monitor used only to excuse failing must-succeed controls.')
 TECHNIQUE = 'runtime monitoring: fault enumeration (stall / trickle at every blocking step) with a hub-ordered timer-chain oracle'
 RULE = ('case = (side, stage, pattern, PIPELINING, #recipients, tls, T): one real session / delivery attempt whose '
-        'peer stalls at that stage with that pattern; all cases of a shard run concurrently as greenlets of one '
-        'hub. Every case is non-trivial (each has a stall, or is a must-succeed control with T/2 delays at every '
-        'step); distinct = distinct (side, stage, pattern, pipelining, nrcpt, tls, second-stall, T). The seed '
-        'varies the order (interleaving), where a reply / command line is cut, and the envelope addresses.')
+        'peer stalls at that stage with that pattern; all cases of a shard run concurrently (staggered start) as '
+        'greenlets of one hub. Every case is non-trivial (each has a stall, or is a must-succeed control with T/2 '
+        'delays at every step); distinct = distinct (side, smtp|lmtp, stage, pattern, pipelining, nrcpt, tls, second-stall, T). '
+        'The seed varies the order (interleaving), where a reply / command line is cut, which partial-reply cases '
+        'get a second recipient, and the envelope addresses. mechanism = side/stage/pattern[/pipelining]/clause, '
+        'except that a greenlet stuck in IO.close() is classified by that step (stage close, pattern '
+        'tls-peer-silent). A case whose session fails BEFORE the stall point (load) is re-run once, then '
+        'inconclusive.')
 ASSUMPTIONS = ['timers of one libev hub fire in deadline order and gevent.sleep() arms its timer relative to the '
                'current clock (gevent.sleep calls loop.update_now()); Timeout.start() uses the same or an older '
                'loop time',
@@ -261,12 +265,16 @@ SERVER_STAGES = {
                          'trickle-lines']),
     'eod': ({}, _EOD, ['silent', 'partial-line']),
     'rset': ({}, _EOD + [('s', b'RSET\r\n'), ('r', '250')], ['silent']),
-    'auth-login-challenge': ({'auth': True}, _EHLO + [('s', b'AUTH LOGIN\r\n'), ('r', '334')],
+    # PLAIN / LOGIN are only accepted on an encrypted session; CRAM-MD5 also in clear text
+    'auth-login-challenge': ({'auth': True, 'tls': 'starttls'}, _TLS_EHLO + [('s', b'AUTH LOGIN\r\n'), ('r', '334')],
                              ['silent', 'partial-line', 'trickle-bytes']),
-    'auth-login-password': ({'auth': True}, _EHLO + [('s', b'AUTH LOGIN\r\n'), ('r', '334'),
-                                                     ('s', _b64(b'user') + b'\r\n'), ('r', '334')], ['silent']),
-    'auth-plain-challenge': ({'auth': True}, _EHLO + [('s', b'AUTH PLAIN\r\n'), ('r', '334')],
+    'auth-login-password': ({'auth': True, 'tls': 'starttls'},
+                            _TLS_EHLO + [('s', b'AUTH LOGIN\r\n'), ('r', '334'),
+                                         ('s', _b64(b'user') + b'\r\n'), ('r', '334')], ['silent']),
+    'auth-plain-challenge': ({'auth': True, 'tls': 'starttls'}, _TLS_EHLO + [('s', b'AUTH PLAIN\r\n'), ('r', '334')],
                              ['silent', 'partial-line']),
+    'auth-crammd5-challenge': ({'auth': [b'CRAM-MD5']}, _EHLO + [('s', b'AUTH CRAM-MD5\r\n'), ('r', '334')],
+                               ['silent', 'partial-line', 'trickle-bytes']),
     'starttls-handshake': ({'tls': 'starttls'}, _EHLO + [('s', b'STARTTLS\r\n'), ('r', '220')],
                            ['silent', 'partial-clienthello']),
     'tls-ehlo': ({'tls': 'starttls'}, _TLS_EHLO, ['silent', 'partial-line']),
@@ -355,7 +363,7 @@ def run_server_case(sub):
     imm = cfg.get('tls') == 'immediate'
     st = {}
     if driver == 'edge':
-        edge = SmtpEdge(None, _NullQueue(), auth=bool(cfg.get('auth')), context=ctx, tls_immediately=imm,
+        edge = SmtpEdge(None, _NullQueue(), auth=cfg.get('auth', False), context=ctx, tls_immediately=imm,
                         command_timeout=T, data_timeout=T, hostname='c14.test')
 
         def run():
@@ -367,7 +375,7 @@ def run_server_case(sub):
             except BaseException as e:
                 st['end'] = 'exception:' + type(e).__name__
     else:
-        srv = Server(a, _Handlers(), address=('127.0.0.1', 4321), auth=bool(cfg.get('auth')), context=ctx,
+        srv = Server(a, _Handlers(), address=('127.0.0.1', 4321), auth=cfg.get('auth', False), context=ctx,
                      tls_immediately=imm, command_timeout=T, data_timeout=T)
 
         def run():
@@ -1053,7 +1061,8 @@ def run_http_case(sub):
 
 def _key(sub):
     sec = sub.get('second')
-    return (sub['side'], sub['stage'], sub['pattern'], sub.get('pipelining'), sub.get('nrcpt'), bool(sub.get('tls')),
+    return (sub['side'], sub.get('proto'), sub['stage'], sub['pattern'], sub.get('pipelining'), sub.get('nrcpt'),
+            bool(sub.get('tls')),
             (sec['stage'], sec.get('mode')) if sec else None, sub['T'])
 
 
@@ -1271,17 +1280,17 @@ def run_case(case, R):
     R.count('batches')
     retry = []
     for i, sub in enumerate(subs):
+        res = slot[i]
+        if res is not None and is_control(sub) and not res.inconc and not getattr(res, 'ok', False):
+            retry.append((sub, res, lag_batch))
+            continue
         if not single:
             R.begin_case(sub)
-        res = slot[i]
         if res is None:
             gs[i].kill(block=False)
             R.eval()
             R.nontrivial(_key(sub))
             R.inconclusive('watchdog: case did not finish within %ds' % WATCHDOG)
-            continue
-        if is_control(sub) and not res.inconc and not getattr(res, 'ok', False):
-            retry.append((sub, res, lag_batch))
             continue
         if is_control(sub) and getattr(res, 'ok', False):
             res.hits.append('control-succeeded')
